@@ -80,6 +80,7 @@ pub const RULES: &[(&str, &[&str])] = &[
     ("io.flags_not_restored", &["C17", "C15"]),
     ("io.bytes_corrupted", &["C17"]),
     ("transient.failed_replacement_retry", &["C15", "C18"]),
+    ("dispatch.wrong_error_reported", &["C15"]),
     ("io.bytes_lost", &["C17"]),
     ("io.task_not_woken", &["C17", "C02"]),
     ("io.no_progress", &["C17"]),
@@ -240,6 +241,10 @@ pub struct Hk {
     pub c08_cells: BTreeMap<String, u64>,
     /// fds whose registration call was made to fail (attributed to their owner afterwards)
     pub faulted_fds: Vec<i32>,
+    /// the first failure the dispatch in progress met: (it was an error returned by a
+    /// source's event processing, its text); faults fired when the dispatch began
+    pub first_failure: Option<(bool, String)>,
+    pub faults_at_dispatch_start: usize,
 }
 
 pub struct Sim {
